@@ -73,6 +73,14 @@ pub struct Case {
     /// configured ban duration: 0 = default (1 h), 1 = permanent (None), 2 = 10 minutes
     #[serde(default)]
     pub ban_cfg: u8,
+    /// further non-default configuration of the requester: bits 0-1 max_nodes_response (0 default, 1 -> 4,
+    /// 2 -> 100, 3 -> 64), bit 2 a table filter that only admits records with an even UDP port
+    #[serde(default)]
+    pub q_cfg: u8,
+}
+
+fn even_port_filter(e: &Enr) -> bool {
+    e.udp4().map(|p| p % 2 == 0).unwrap_or(true)
 }
 
 pub struct C11;
@@ -98,7 +106,20 @@ async fn run(case: &Case, rep: &mut CaseReport) -> Option<(String, String)> {
         1 => "ban-duration-permanent",
         _ => "ban-duration-10min",
     });
-    let mut q = Svc::new(SvcConfig { key_idx: 0, ban_duration, ..Default::default() }).await;
+    let max_nodes_response = match case.q_cfg & 3 {
+        0 => None,
+        1 => Some(4usize),
+        2 => Some(100),
+        _ => Some(64),
+    };
+    let table_filter: Option<fn(&Enr) -> bool> = if case.q_cfg & 4 != 0 { Some(even_port_filter) } else { None };
+    if max_nodes_response.is_some() {
+        rep.class("requester-with-non-default-max-nodes-response");
+    }
+    if table_filter.is_some() {
+        rep.class("requester-with-a-table-filter");
+    }
+    let mut q = Svc::new(SvcConfig { key_idx: 0, ban_duration, max_nodes_response, table_filter, ..Default::default() }).await;
     let p_enr = shaped_record(P_KEY, 1, Shape::V4);
     let p_id = p_enr.node_id().raw();
     let p_addr = shaped_addr(P_KEY, Shape::V4, false).unwrap();
@@ -308,8 +329,14 @@ async fn run(case: &Case, rep: &mut CaseReport) -> Option<(String, String)> {
                 format!("the responder answered {ds:?} exactly as this implementation prescribes ({packets_total} packets) and was banned (ip {ban_ip}, node {ban_node})"),
             ));
         }
-        // 1b. nothing valid is missing from a loss-free answer
-        if all_delivered {
+        // 1b. nothing valid is missing from a loss-free answer (unless the requester is configured to
+        // stop collecting early: it completes the request once it holds max_nodes_response records,
+        // and later packets of an answer are then ignored by design)
+        let q_max = max_nodes_response.unwrap_or(16);
+        if all_delivered && honest_records.len() > q_max {
+            rep.class("honest-answer-longer-than-the-requester's-max-nodes-response(1b not evaluated)");
+        }
+        if all_delivered && honest_records.len() <= q_max {
             let got: HashSet<ids::Id> = discovered.iter().map(|e| e.node_id().raw()).collect();
             for e in &honest_records {
                 let eid = e.node_id().raw();
@@ -464,8 +491,9 @@ impl Property for C11 {
             answer,
             prop_oneof![2 => Just(vec![]), 1 => proptest::collection::vec(mal_packet(), 1..3)],
             prop_oneof![2 => Just(0u8), 1 => Just(1u8), 1 => Just(2u8)],
+            prop_oneof![4 => Just(0u8), 3 => 0u8..8],
         )
-            .prop_map(|(class, pat, r_entries, answer, extras, ban_cfg)| Case { class, pat, r_entries, answer, extras, ban_cfg })
+            .prop_map(|(class, pat, r_entries, answer, extras, ban_cfg, q_cfg)| Case { class, pat, r_entries, answer, extras, ban_cfg, q_cfg })
             .boxed()
     }
     fn extra(_tier: Tier, _seed: u64, shard: usize, nshards: usize) -> Vec<(Case, CaseReport)> {
@@ -480,6 +508,7 @@ impl Property for C11 {
                     answer: Answer::Honest { plan: vec![] },
                     extras: vec![],
                     ban_cfg: (class % 3) as u8,
+                    q_cfg: (class % 8) as u8,
                 };
                 let rep = crate::runner::run_guarded::<C11>(&case);
                 (case, rep)
